@@ -262,6 +262,24 @@ def r22_result_adapters(ctx, t):
     return t2
 
 
+def r23_slice_ranges(ctx, t):
+    """R23 (option slices=1): range indexing of a byte slice becomes a helper with the panic condition as precondition:
+       &E[a..b] -> slice_range(E, a, b); &E[a..] -> slice_from(E, a); &E[..b] -> slice_to(E, b)"""
+    def rep(m):
+        e, a, b = m.group('e'), m.group('a').strip(), m.group('b').strip()
+        if a and b:
+            return 'slice_range(%s, %s, %s)' % (e, a, b)
+        if a:
+            return 'slice_from(%s, %s)' % (e, a)
+        if b:
+            return 'slice_to(%s, %s)' % (e, b)
+        return e
+    t2 = re.sub(r'&(?P<e>[\w.]+(?:\(\))?)\[(?P<a>[^\[\]]*?)\.\.(?P<b>[^\[\]]*?)\]', rep, t)
+    if t2 != t:
+        ctx.hit('R23')
+    return t2
+
+
 def translate(text, ctx, closure_specs=()):
     """text = stripped fn text. Returns (signature, body)."""
     t = text
@@ -287,6 +305,8 @@ def translate(text, ctx, closure_specs=()):
         body = r3b_header_writes(ctx, body)
     if ctx.profile == 'plain':
         body = r22_result_adapters(ctx, body)
+        if getattr(ctx, 'slices', False):
+            body = r23_slice_ranges(ctx, body)
     body = r14_closures(ctx, body, closure_specs)
     if ctx.profile != 'verbatim':
         body = re.sub(r'(?<![:\w])mem::(size_of|align_of|needs_drop)', r'core::mem::\1', body)
